@@ -183,9 +183,9 @@ fn check_enum(case: &Case) -> Outcome {
 
 const SIGMA: [u8; 16] = [b'<', b'>', b'/', b'!', b'-', b'=', b'"', b'\'', b' ', b'a', b's', b'c', b'r', b'i', b'p', b't'];
 
-pub const FRAGMENTS: [&str; 19] = [
+pub const FRAGMENTS: [&str; 25] = [
     "<script>", "</script>", "<!--", "-->", "<![CDATA[", "]]>", "<title>", "</title>", "<textarea>", "<plaintext>", "<", "</", "x", " ", "<!", "-",
-    "<script", "<a b='", ">",
+    "<script", "<a b='", ">", "<!DOCTYPE", "</SCRIPT>", "<SCRIPT>", "--!>", "<?", "/>",
 ];
 
 fn nth_string(mut i: u64, base: u64) -> Vec<u64> {
@@ -235,7 +235,7 @@ pub fn run(ctx: &Ctx) -> Report {
     let mut rep = Report::new(
         "C16",
         "case = byte string; oracle = concat(raw(token_i)) + raw(error token) + buffered() == input, every non-error token has a non-empty span (so #tokens <= |b|+1), \
-         no panic/overflow (overflow checks on), accessors Ok on valid UTF-8; exhaustive over the 16-symbol markup alphabet and over a 19-fragment alphabet, random fragment soups and byte strings beyond; \
+         no panic/overflow (overflow checks on), accessors Ok on valid UTF-8; exhaustive over the 16-symbol markup alphabet and over a 25-fragment alphabet, random fragment soups and byte strings beyond; \
          non-trivial = >=3 tokens of >=2 kinds, or a raw-text element (script/style/title/textarea/...) was entered; enumerated strings are distinct by construction, random ones by hash",
     );
     rep.assume("an Err from Tokenizer::next() is accepted only when the input is not valid UTF-8 (clean rejection)");
@@ -254,15 +254,15 @@ pub fn run(ctx: &Ctx) -> Report {
     if rep.has_violation() {
         return rep;
     }
-    let l2 = ctx.tier.pick(5, 6) as u32;
-    let n2 = count_upto(19, l2);
+    let l2 = ctx.tier.pick(4, 5) as u32;
+    let n2 = count_upto(25, l2);
     rep.add(run_enum(
         ctx,
         "exhaustive-fragments",
         n2,
         true,
         &format!("all {n2} concatenations of <= {l2} fragments out of {:?}", FRAGMENTS),
-        |i| Some(Case::from_bytes(nth_string(i, 19).into_iter().map(|d| FRAGMENTS[d as usize]).collect::<String>().into_bytes())),
+        |i| Some(Case::from_bytes(nth_string(i, 25).into_iter().map(|d| FRAGMENTS[d as usize]).collect::<String>().into_bytes())),
         check_enum,
         &[],
     ));
